@@ -289,6 +289,10 @@ func genArithStmts(t *rapid.T, n int, scope string, varReadOneIn int) (string, [
 		} else {
 			val = drawArg(t, vt)
 		}
+		if tt := c08Targets[tgt]; (tt == "RTIME" || tt == "TIME") && rapid.IntRange(0, 4).Draw(t, "wrapint") == 0 {
+			// an INTEGER operand whose scaling to nano- or milliseconds wraps around int64 (to 0, to the other sign)
+			val = rapid.SampledFrom([]string{"36028797018963968", "4611686018427387904", "-9223372036854775808", "9223372037", "9223372036", "18446744073", "-9223372037", "9223372036854775", "72057594037927936", "9223372036854775807"}).Draw(t, "wrapval")
+		}
 		if rapid.IntRange(0, 9).Draw(t, "neg") == 0 {
 			val = "-" + val
 		}
